@@ -14,16 +14,18 @@ tvars == <<vars, l>>
 Ev == TraceLog[l]
 
 TReset == /\ Ev.k = "reset" /\ Ev.ls \in AllKinds /\ Start(Ev.ls) /\ h' = h
+\* ("reinit" events - the same LinesearchMethod / Linesearcher / method values used for another run - are
+\* the model's ReInit action, part of Step)
 TStep == /\ Ev.k # "reset" /\ Step(Ev) /\ h' = h
 
 TraceInit == /\ ph = "stopped" /\ ls = "script" /\ ev = Full /\ want = {} /\ pend = "none" /\ acc = NoAcc
-             /\ first = TRUE /\ tinyp = 0 /\ perr = "" /\ bounded = FALSE /\ nit = 0 /\ nls = 0 /\ nmaj = 0
+             /\ first = TRUE /\ tinyp = 0 /\ perr = "" /\ bounded = FALSE /\ nit = 0 /\ nls = 0 /\ nmaj = 0 /\ nrun = 1
              /\ h = <<>> /\ l = 1
 TraceNext == /\ l <= Len(TraceLog) /\ (TReset \/ TStep) /\ l' = l + 1
 TraceSpec == TraceInit /\ [][TraceNext]_tvars
 
 \* the theorems of the model, evaluated on every state of the real history
-TraceInv == TypeOK /\ ConcludedSound /\ CompleteAtMajor /\ IdleComplete /\ ComplementDisjoint
+TraceInv == TypeOK /\ ConcludedSound /\ CompleteAtMajor /\ IdleComplete /\ ComplementDisjoint /\ NoMajorWithoutConclusion
 
 Accepted ==
     LET d == TLCGet("stats").diameter IN
